@@ -60,7 +60,7 @@ func (x *Exec) intrinsic(fr *Frame, st *State, fn *ssa.Function, args []Value, s
 	case "errors.Is":
 		x.trusted("errors.Is: unfolded through *PathError, *LinkError, syscall.Errno (Errno.Is table audited); other dynamic types uninterpreted")
 		a, b := args[0].(IfaceV), args[1].(IfaceV)
-		return []Value{x.eng.errIs(st.heap, a, b, 3)}, true, true
+		return []Value{x.eng.errIs(st.heap, a, b, 3, func(f *Term) { st.assume(f) })}, true, true
 	case "(*sync.Once).Do":
 		x.trusted("sync.Once.Do(f): if !done { f(); done = true }")
 		o := args[0].(*Term)
